@@ -378,6 +378,45 @@ class Report:
         return 0
 
 
+def strip_alloc(out):
+    """the implementation appends ` ;; A<peak>/<largest>` (measured allocation) which no model predicts"""
+    i = out.rfind(" ;; A")
+    return out[:i] if i >= 0 else out
+
+
+def alloc_of(out):
+    i = out.rfind(" ;; A")
+    if i < 0:
+        return None
+    a, _, b = out[i + 5:].partition("/")
+    try:
+        return int(a), int(b)
+    except ValueError:
+        return None
+
+
+def result_of(out):
+    """the result part of `<result> ;; <trace> [;; A…]`"""
+    return out.split(" ;; ")[0]
+
+
+def trace_of(out):
+    p = out.split(" ;; ")
+    return p[1].split(" ") if len(p) > 1 and p[1] else []
+
+
+def sends_of(out):
+    """[(conn, port, hex, failed)] in order"""
+    res = []
+    for e in trace_of(out):
+        if e.startswith("S"):
+            head, _, data = e.partition(":")
+            conn, _, port = head[1:].partition(">")
+            failed = data.endswith("!")
+            res.append((int(conn), int(port), data.rstrip("!"), failed))
+    return res
+
+
 def correspond(report, cases, oracle=None, trivial=None, tag="h"):
     """cases: list of case lines. Runs model and implementation, records divergences.
     oracle(case, impl_out, model_out) -> list of (signature, description) failures on the IMPLEMENTATION."""
@@ -393,7 +432,9 @@ def correspond(report, cases, oracle=None, trivial=None, tag="h"):
         report.count("impl:" + (first if first in ("OK", "ERR", "CRASH", "ABORT", "HANG") else "other"))
         if i.startswith("ERR "):
             report.count("errkind:" + i.split(" ")[1])
-        icmp = "CRASH" if i == "ABORT" else i
+        icmp = "CRASH" if i == "ABORT" else strip_alloc(i)
+        if icmp in ("CRASH", "HANG") and m.startswith("CRASH"):
+            icmp = m  # a crash is a crash; the model's trace up to it is not compared
         if m != icmp:
             report.divergences.append((c, m, i, panics.get(cid, "")))
         if oracle:
